@@ -357,6 +357,7 @@ struct CountingBuf : public std::streambuf
    std::string cur, all;
    long lines = 0;
    long resolveNotes = 0;                 // "detected violations in original problem space"
+   long despiteNotes = 0;                 // "termination despite violations (numerical difficulties, ...)" (spxsolve.hpp)
    std::function<void(const std::string&)> onLine;
    int overflow(int c) override
    {
@@ -364,6 +365,7 @@ struct CountingBuf : public std::streambuf
       {
          lines++;
          if(cur.find("violations in original problem space") != std::string::npos) resolveNotes++;
+         if(cur.find("termination despite violations") != std::string::npos) despiteNotes++;
          if(onLine) onLine(cur);
          if(all.size() < 20000) all += cur + "\n";
          cur.clear();
